@@ -22,10 +22,10 @@ RULE = ("scenarios of 5-9 result-storing jobs (return values: JSON, None, large,
 ASSUMPTIONS = ["in-memory message broker; result bucket broker in-memory or the real RedisBucketBroker over the fake Redis", "virtual time",
                "a store fault is a ConnectionError raised by the bucket broker's store_bucket"]
 EVAL_COUNTER = "buckets_or_faults_judged"
-REQUIRED = ["buckets_or_faults_judged", "buckets_judged", "fault_runs", "chains_overwritten", "eager_buckets", "disabled_checked", "unencodable_return_buckets"]
+REQUIRED = ["buckets_or_faults_judged", "buckets_judged", "fault_runs", "chains_overwritten", "eager_buckets", "disabled_checked", "unencodable_return_buckets", "undescribable_failures"]
 CASE_TIMEOUT = 150
 
-KINDS = ["value", "none", "large", "exc", "timeout", "chain2", "chain3_fail", "recurring", "eager_ack_res", "eager_nack_exc", "eager_retry_res", "eager_ack_two_sets", "eager_exc_then_res", "eager_res_exc_res", "disabled", "disabled_eager", "badret", "badret_chain"]
+KINDS = ["value", "none", "large", "exc", "timeout", "chain2", "chain3_fail", "recurring", "eager_ack_res", "eager_nack_exc", "eager_retry_res", "eager_ack_two_sets", "eager_exc_then_res", "eager_res_exc_res", "disabled", "disabled_eager", "badret", "badret_chain", "exc_unprintable"]
 
 
 def gen_cases(tier, seed):
@@ -74,6 +74,9 @@ def plan_job(kind, i, rnd):
     if kind == "badret_chain":
         kw["retries"] = 1
         return {"by_attempt": [{"do": "badret", "what": "set"}, {"do": "ok", "ret": val}]}, kw, {"success": True, "data": enc(val), "exception": None}, 2
+    if kind == "exc_unprintable":
+        # the failure cannot even be described: whatever becomes of the bucket, the message is dead-lettered like any failed one
+        return {"do": "raise", "exc": "Unprintable", "msg": "x"}, kw, "any", 1
     if kind == "timeout":
         return {"do": "ok", "d": 3.0}, kw, {"success": False, "data": "", "exception": "TimeoutError"}, 1
     if kind == "chain2":
@@ -197,6 +200,13 @@ def judge_baseline(case, info, out, stats, fps):
         b = info["job_result"][id_]
         ctx = kind
         stats["buckets_or_faults_judged"] += 1
+        if exp == "any":
+            # only the disposition is specified: one failed execution without retries = dead-lettered, executed once
+            stats["undescribable_failures"] += 1
+            d = [op for op, _pl in info["dispositions"].get(id_, [])]
+            if d != ["nack"] or info["places"].get(id_) != ["dead"] or info["starts"].get(id_) != 1:
+                out.append(V("disposition_changed_by_store_fault", "unprintable-exception/own-message", f"{id_}: an actor failure whose text cannot be produced: dispositions {d}, final place {info['places'].get(id_)}, executions {info['starts'].get(id_)} (expected one nack, dead-lettered, one execution)", bk))
+            continue
         if exp == "absent":
             stats["disabled_checked"] += 1
             calls = [c for c in info["store_calls"] if c[0] == p["rid"]]
@@ -266,8 +276,11 @@ def run_case(case):
         return {"fp": None, "viol": [], "stats": dict(stats), "inconclusive": "fake server saw unknown commands"}
     if base["worker"]["exc"] is not None or not base["worker"]["returned"]:
         out.append(V("worker_stopped_by_store_fault", "baseline", f"worker: {base['worker']}", case["bucket"]))
-    if res.exc_log:
-        out.append(V("inv:loop", "baseline", f"event loop reported {res.exc_log[:2]}", case["bucket"]))
+    # (an actor failure whose own text cannot be produced surfaces once more when the outcome is written down, after the
+    # disposition: the per-message task ends with that error; only the disposition is this property's subject)
+    loop_reports = [x for x in res.exc_log if "no printable form" not in str(x.get("exception"))]
+    if loop_reports:
+        out.append(V("inv:loop", "baseline", f"event loop reported {loop_reports[:2]}", case["bucket"]))
     judge_baseline(case, base, out, stats, fps)
     # ---- one run per store call, with that call failing
     n = base["n_store_attempts"]
